@@ -404,6 +404,7 @@ func c04Build(t *rapid.T) (record []byte, key *hello.Key, classes []string, desc
 				}
 			}
 			outer.Exts[i].Data = hello.SNIExt(other)
+			c04OtherSNI = other
 			desc = append(desc, "outer_sni_mismatch")
 		}
 		if hasFault(fs, "outer_sni_absent") {
@@ -531,6 +532,10 @@ func c04Build(t *rapid.T) (record []byte, key *hello.Key, classes []string, desc
 	return
 }
 
+// c04OtherSNI is the server name c04Build put into the outer hello for the
+// outer_sni_mismatch fault ("" when the fault is not present).
+var c04OtherSNI string
+
 func TestC04(t *testing.T) {
 	rec := ev.Get("C04")
 	rec.Rule("valid sealed tuple (C03 generator) plus 1..3 injected rule violations at drawn positions (23 fault kinds over draft 5.1/7/7.1, truncation of the outer hello and of the decrypted inner at every offset, wrong record/message type); oracle: error class in the injected faults' classes, nothing readable, exactly one matching fatal alert then Close on the transport. distinct = (fault kinds, positions); every case is non-trivial")
@@ -538,11 +543,25 @@ func TestC04(t *testing.T) {
 	for _, f := range c04Faults {
 		m = append(m, "fault:"+f.name)
 	}
-	m = append(m, "multi_fault", "keyless_server")
+	m = append(m, "multi_fault", "keyless_server", "outer_sni_names_a_sibling_key")
 	rec.Mandatory(m...)
 	rapid.Check(t, func(t *rapid.T) {
+		c04OtherSNI = ""
 		record, key, classes, desc, cl := c04Build(t)
 		keys := []*hello.Key{key}
+		if c04OtherSNI != "" && rapid.Bool().Draw(t, "other_sni_is_a_sibling_keys_public_name") {
+			// the name in the outer hello is the public name of ANOTHER key the server holds
+			// under the same config id and suites (key rotation): still not the public name
+			// of the config the payload was made for
+			sib := drawKey(t, "sni_sibling", int(key.ID), c04OtherSNI)
+			sib, _ = hello.NewKey(sib.Priv.Bytes(), key.ID, c04OtherSNI, key.Suites)
+			if rapid.Bool().Draw(t, "sni_sibling_first") {
+				keys = []*hello.Key{sib, key}
+			} else {
+				keys = []*hello.Key{key, sib}
+			}
+			cl = append(cl, "outer_sni_names_a_sibling_key")
+		}
 		rp := map[string]any{"keys": keysReplay(keys), "client_stream": hx(record), "expect": "abort", "want_error": strings.Join(classes, "|"), "want_alert": alertClass[classes[0]].desc, "faults": desc}
 		tr := wire.New(record, io.EOF)
 		useKeys := echKeys(keys...)
